@@ -406,6 +406,13 @@ def materialise_values(items):
     return tuple(freeze(v) for v in items)
 
 
+def first_of_map(items):
+    """A consumer that stops after the FIRST element of a Map's (lazy) result: the other elements are never produced."""
+    for x in items:
+        return ("first", freeze(x))
+    return ("first", "§empty")
+
+
 class Program:
     def __init__(self, spec):
         self.spec = spec
@@ -564,6 +571,8 @@ class Program:
 
     def _b_map(self, n):
         m = Map(self.ref(n["target"]), {key: self.ref(v) for key, v in n["iterables"].items()})
+        if n.get("consume") == "first":
+            return (m.values if n.get("values") else m).apply(first_of_map)
         if n.get("values"):
             return m.values.apply(materialise_values)
         return m.apply(materialise_map)
